@@ -87,6 +87,30 @@ func (q c03Req) wantBody() []byte {
 	}
 	switch q.bodyKind {
 	case "bops":
+		return q.bopsBody()
+	case "body", "app", "raw":
+		return []byte(q.body)
+	case "stream":
+		return bytes.Repeat([]byte("s"), q.act)
+	case "sw":
+		return bytes.Repeat([]byte("w"), q.act)
+	}
+	return nil
+}
+
+// bopsOps splits the steps of a body built through several body APIs
+func (q c03Req) bopsOps() [][]byte {
+	var ops [][]byte
+	for _, op := range strings.Split(q.body, "|") {
+		if op != "" {
+			ops = append(ops, []byte(op))
+		}
+	}
+	return ops
+}
+
+func (q c03Req) bopsBody() []byte {
+	{
 		// reference for a body built in steps: Set* replaces everything, Append/Write add to what is there — after
 		// SetBodyRaw there is no buffered body left, so they start afresh —, SetBodyRaw(nil) and ResetBody leave it empty
 		var cur []byte
@@ -106,19 +130,14 @@ func (q c03Req) wantBody() []byte {
 				cur, raw = append(cur, arg...), false
 			case 'r':
 				cur, raw = []byte(arg), true
+			case 's':
+				cur, raw = []byte(arg), true
 			case 'R', 'x':
 				cur, raw = nil, op[0] == 'R'
 			}
 		}
 		return cur
-	case "body", "app", "raw":
-		return []byte(q.body)
-	case "stream":
-		return bytes.Repeat([]byte("s"), q.act)
-	case "sw":
-		return bytes.Repeat([]byte("w"), q.act)
 	}
-	return nil
 }
 
 func decodeC03(a [][]byte) []c03Req {
@@ -176,8 +195,30 @@ func init() {
 					nt = true
 				}
 			}
-			return &Case{Impl: string(trunc(out, 200)), Nontrivial: nt, Tags: []string{"program"},
-				Judge: func([]string) Verdict {
+			// bodies built in steps are also given to the model (Model/BodyOps: the three body fields of a Response)
+			var lines []string
+			var lineReq []int
+			for i, q := range reqs {
+				if q.bodyKind == "bops" && len(q.bopsOps()) > 0 {
+					lines = append(lines, Line("bodyops", q.bopsOps()...))
+					lineReq = append(lineReq, i)
+				}
+			}
+			return &Case{Impl: string(trunc(out, 200)), Nontrivial: nt, Tags: []string{"program"}, Lines: lines,
+				Judge: func(replies []string) (verdict Verdict) {
+					defer func() {
+						// the model against the reference reading of the steps (the implementation against that reading is
+						// the response-body check below): reported only when the property monitor is satisfied
+						if verdict.Kind != VOk {
+							return
+						}
+						for k, i := range lineReq {
+							if k < len(replies) && replies[k] != "no-driver" && replies[k] != H(reqs[i].bopsBody()) {
+								verdict = Verdict{VCorr, "bodyops-model", fmt.Sprintf("request #%d steps %q: the model sends %s, the reference reading %q", i, reqs[i].body, replies[k], reqs[i].bopsBody())}
+								return
+							}
+						}
+					}()
 					desc := func(i int) string {
 						return fmt.Sprintf("cfg=%q request #%d of %q: wire %q", a[0], i, bytes.Join(a[1:], []byte(" ")), trunc(out, 500))
 					}
@@ -321,7 +362,7 @@ func init() {
 						// the body built in 2..5 steps through different body APIs
 						var ops []string
 						for k, m := 0, 2+r.Intn(4); k < m; k++ {
-							ops = append(ops, r.Pick([]string{"bfirst draft. ", "atail", "wmore", "rRAWBODY", "R", "x", "a-x-", "rsecond raw"}))
+							ops = append(ops, r.Pick([]string{"bfirst draft. ", "atail", "wmore", "rRAWBODY", "R", "x", "a-x-", "rsecond raw", "sSTREAMED", "b", "s"}))
 						}
 						q[5], q[4] = "bops", strings.Join(ops, "|")
 					}
